@@ -84,7 +84,27 @@ func run(prop, tier, repo, verif, dump string, seed int, start time.Time) (code 
 		return 2
 	}
 	rep := core.NewReport(w, prop, tier, known)
+	if tier == "thorough" {
+		core.Unroll = 3
+	}
 	fn(w, rep)
-	info := map[string]any{"packages": len(w.Pkgs), "module_functions": w.NumFunc, "load_s": loadS, "repo": repo}
+	if tier == "thorough" {
+		// second build configuration: another word size and the build-tagged files of the module
+		for _, cfg := range [][]string{{"linux/386", "GOOS=linux", "GOARCH=386"}} {
+			w2, err := core.Load(repo, cfg[1:])
+			if err != nil {
+				fmt.Printf("cannot analyse %s under %s: %v\n", repo, cfg[0], err)
+				fmt.Printf("VIOLATION property=%s replay=%s\n", prop, "load-failure")
+				return 1
+			}
+			rep.W = w2
+			rep.Config = cfg[0]
+			rep.Configs = append(rep.Configs, cfg[0])
+			fn(w2, rep)
+			rep.W = w
+			rep.Config = ""
+		}
+	}
+	info := map[string]any{"packages": len(w.Pkgs), "module_functions": w.NumFunc, "load_s": loadS, "repo": repo, "loop_unroll": core.Unroll}
 	return rep.Finish(verif, time.Since(start).Seconds(), seed, info)
 }
